@@ -6,7 +6,7 @@ package bookkeeping
 // for every protocol registered in config.Consensus (flat and Merkle payset commitments, with and
 // without the SHA-256 and SHA-512 commitments / Branch512).
 //
-// (b1) For paysets of 0..3 distinct transactions (built with EncodeSignedTxn; payment, payment with
+// (b1) For paysets of 0..3 (thorough: 0..4) distinct transactions (built with EncodeSignedTxn; payment, payment with
 // close-out ApplyData, application call with EvalDelta ApplyData) whose header carries
 // PaysetCommit() of that payset:
 //   original                                     -> ContentsMatchHeader must be true (where the
@@ -31,11 +31,15 @@ package bookkeeping
 // these functions (C30).
 // Unexported identifiers used: none.
 //
-// Mutants (bin/mut, quick tier) — all DETECTED:
-//   M1 ledger/eval/eval.go TransactionGroup: incomplete-group check skipped for 1-member groups     (part a)
-//   M2 data/bookkeeping/txn_merkle.go: Merkle leaf built from the SignedTxnInBlock without ApplyData  (part b1)
-//   M3 data/bookkeeping/block.go PreCheck: branch check skipped when Branch512 matches (own)        (part b2)
-//   M4 ledger/eval/eval.go: group hash accumulates txids only for gi>0 (own; needs n>=2 alterations at 0) (part a)
+// Mutants (bin/mut C29 ... --only, quick tier) — all DETECTED:
+//   M1 ledger/eval/eval.go TransactionGroup: `len(txgroup) > 1 &&` added to the incomplete-group check
+//      (1-member groups unchecked)                          -> part a, C29:group:alter:TransactionGroup (44 cases)
+//   M2 data/bookkeeping/txn_merkle.go Marshal: leaf built from the SignedTxnInBlock with ApplyData cleared
+//                                                           -> part b1, C29:contents:alter:ad.* for every Merkle protocol
+//   M3 data/bookkeeping/block.go PreCheck: SHA-512/256 branch check skipped when the protocol also
+//      has Branch512 (own)                                  -> part b2, C29:precheck:branch
+//   M4 ledger/eval/eval.go TransactionGroup: "inconsistent group values" check removed (own; the group
+//      hash ignores the Group field, so a member carrying a foreign id slips through) -> part a, gid-foreign-one
 
 import (
 	"fmt"
@@ -109,7 +113,7 @@ func c29alts() []c29alt {
 	}
 }
 
-// c29material builds the header and 4 encoded transactions (3 + 1 foreign) for a protocol.
+// c29material builds the header and 5 encoded transactions (up to 4 + 1 foreign) for a protocol.
 func c29material(v protocol.ConsensusVersion) (BlockHeader, []transactions.SignedTxnInBlock, error) {
 	var bh BlockHeader
 	bh.CurrentProtocol = v
@@ -146,10 +150,11 @@ func c29material(v protocol.ConsensusVersion) (BlockHeader, []transactions.Signe
 		{},
 		{ClosingAmount: basics.MicroAlgos{Raw: 12}, SenderRewards: basics.MicroAlgos{Raw: 3}, ReceiverRewards: basics.MicroAlgos{Raw: 4}},
 		{EvalDelta: transactions.EvalDelta{GlobalDelta: basics.StateDelta{"k": {Action: basics.SetBytesAction, Bytes: "v"}}, Logs: []string{"l"}}},
+		{ReceiverRewards: basics.MicroAlgos{Raw: 7}},
 		{CloseRewards: basics.MicroAlgos{Raw: 1}},
 	}
-	types := []protocol.TxType{protocol.PaymentTx, protocol.PaymentTx, protocol.ApplicationCallTx, protocol.PaymentTx}
-	for i := 0; i < 4; i++ {
+	types := []protocol.TxType{protocol.PaymentTx, protocol.PaymentTx, protocol.ApplicationCallTx, protocol.PaymentTx, protocol.PaymentTx}
+	for i := 0; i < 5; i++ {
 		s, err := mk(byte(i+1), types[i], ads[i])
 		if err != nil {
 			return bh, nil, err
@@ -220,8 +225,8 @@ func TestVerif_C29_b(t *testing.T) {
 	}
 	sort.Strings(names)
 	alts := c29alts()
+	maxK := ve.Pick(3, 4) // payset sizes 0..3 (quick) / 0..4 (thorough)
 	prevAlts := c29prevAlts()
-	kinds := map[string]int{}
 
 	visited := r.ParallelFor(len(names), func(pi int) {
 		v := protocol.ConsensusVersion(names[pi])
@@ -233,7 +238,7 @@ func TestVerif_C29_b(t *testing.T) {
 			r.Capped()
 			return
 		}
-		foreign := mat[3]
+		foreign := mat[4]
 		supported := proto.PaysetCommit == config.PaysetCommitFlat || proto.PaysetCommit == config.PaysetCommitMerkle
 		n := 0
 		check := func(blk Block, want bool, kind, detail string) {
@@ -244,8 +249,11 @@ func TestVerif_C29_b(t *testing.T) {
 					map[string]any{"engine": "enum", "part": "b1", "protocol": string(v), "kind": kind, "detail": detail})
 			}
 			r.Class(fmt.Sprintf("b1/%s/%s/%v", desc, kind, got))
+			if n%97 == 0 && pi%9 == 0 {
+				r.Sample(map[string]any{"part": "b1", "protocol": string(v), "payset": len(blk.Payset), "kind": kind, "detail": detail, "ContentsMatchHeader": got})
+			}
 		}
-		for k := 0; k <= 3; k++ {
+		for k := 0; k <= maxK; k++ {
 			blk := Block{BlockHeader: bh, Payset: append(transactions.Payset{}, mat[:k]...)}
 			tc, err := blk.PaysetCommit()
 			if !supported {
@@ -445,9 +453,8 @@ func TestVerif_C29_b(t *testing.T) {
 		}
 		r.EvalN(n)
 	})
-	_ = kinds
 	cov := ve.Coverage{
-		Rule:       fmt.Sprintf("part b: %d protocols x {paysets of 0..3 txns: original, all permutations, all proper sub-sequences, all duplications/foreign insertions at every position, %d single-field alterations per member (txn, signature, ApplyData, flags), alterations of the 3 header commitments} through ContentsMatchHeader; MakeBlock header vs Branch/Branch512 byte flips, round +-1 and %d look-alike previous headers through PreCheck", len(names), len(alts), len(prevAlts)),
+		Rule:       fmt.Sprintf("part b: %d protocols x {paysets of 0..%d txns: original, all permutations, all proper sub-sequences, all duplications/foreign insertions at every position, %d single-field alterations per member (txn, signature, ApplyData, flags), alterations of the 3 header commitments} through ContentsMatchHeader; MakeBlock header vs Branch/Branch512 byte flips, round +-1 and %d look-alike previous headers through PreCheck", len(names), maxK, len(alts), len(prevAlts)),
 		Exhaustive: visited == int64(len(names)),
 	}
 	if n := r.Finish(cov); n > 0 {
